@@ -269,6 +269,7 @@ func (x *Exec) opHostile(st *Step) {
 	if accepted {
 		x.St.inc("hostile-accepted-resync")
 		x.stop = true
+		x.Aborted = true
 
 		return
 	}
@@ -277,6 +278,7 @@ func (x *Exec) opHostile(st *Step) {
 		// attributes): state moved in a way the model does not follow
 		x.St.inc("hostile-accepted-resync")
 		x.stop = true
+		x.Aborted = true
 
 		return
 	}
